@@ -240,6 +240,11 @@ Definition handle2 (req : bytes) : bytes :=
             | Some (DObj l) => lit "cbs " ++ flat_map (fun kv => lit1 107 ++ hex_of_bytes (fst kv) ++ lit1 59 ++ show_doc (snd kv)) (abs_foreach l keys) ++ lit1 46
             | _ => lit "-"
             end
+          else if bytes_eqb kind (lit "parse") then
+            (* Object.Parse: names and types of the members, in order, without descending *)
+            let m := match iter_object i with Ok o => obj_parse pj o | Err => Err | Crash => Crash | OutOfFuel => OutOfFuel end in
+            show_out (fun l => lit "els " ++ flat_map (fun e => lit1 107 ++ hex_of_bytes (fst (fst e)) ++ lit1 59 ++
+                                    dec_of_N (snd (fst e)) ++ lit1 44) l ++ lit1 46) m
           else lit "badkind"
         | _ => lit "badpos"
         end
